@@ -640,7 +640,7 @@ def stmt_under(ctx, rule: str, fn: core.FuncInfo, text: str, want: list[tuple[st
     f = fn.inlined() if inlined else fn
     hits = [n for n in core.walk_local(f.node) if isinstance(n, (ast.Assign, ast.AnnAssign, ast.AugAssign, ast.Expr, ast.Return, ast.Raise, ast.Delete, ast.Assert)) and core.src(n) == text]
     got = [sorted(cfg.cguards(n, f.node, siblings=siblings)) for n in hits]
-    ok = len(hits) == 1 and got[0] == sorted(want)
+    ok = len(hits) == 1 and got[0] == cfg.cg(*want)
     ctx.check(ok, rule, fn, f'{msg} (`{text}` under {sorted(want)}; found {len(hits)} time(s) under {got})', hits[0] if hits else fn.node, key=key)
     return ok
 
